@@ -49,7 +49,7 @@ def one(job):
         # every TLS connection gets TCP delivery effects: duplicates, displacements and repacketised retransmissions
         # (a later segment that starts at an earlier segment's sequence number and covers it and its successor);
         # QUIC connections get reordered 1-RTT datagrams
-        kw = {"resched": 1.0, "repack": 0.5, "quic_features": [{"reorder": True} for _ in range(nquic)]}
+        kw = {"resched": 1.0, "repack": 0.5, "partial": 0.3, "quic_features": [{"reorder": True} for _ in range(nquic)]}
     args = []
     if mode == "meta":
         # the same question with metadata export on: handshake material that an earlier cut exported stays exported (QUIC connections
